@@ -103,6 +103,12 @@ pub struct Router {
     cache: Option<VecDeque<Packet>>,
     /// Shared subscriptions map <group-name, group>
     shared_subscriptions: HashMap<String, SharedGroup>,
+    /// Registrations so far, and the serial number of the registration that currently holds
+    /// each connection id. Connection ids are slab keys and are reused at once; what a link is
+    /// given to address the router with (see `connection_token`) also carries this serial, so
+    /// that a signal of a connection that has ended cannot act on a later holder of its id.
+    registrations: usize,
+    registration_of: HashMap<ConnectionId, usize>,
     /// Will messages per client_id
     last_wills: HashMap<String, (LastWill, Option<LastWillProperties>)>,
     /// verification hook: return from `run_inner` instead of blocking on an empty channel
@@ -148,6 +154,8 @@ impl Router {
             router_meters: router_metrics,
             cache: Some(VecDeque::with_capacity(MAX_CHANNEL_CAPACITY)),
             shared_subscriptions: HashMap::new(),
+            registrations: 0,
+            registration_of: HashMap::new(),
             last_wills: HashMap::new(),
             #[cfg(feature = "verif-hooks")]
             verif_nonblocking: false,
@@ -246,6 +254,19 @@ impl Router {
     fn events(&mut self, id: ConnectionId, data: Event) {
         let span = tracing::error_span!("[>] incoming", connection_id = id);
         let _guard = span.enter();
+
+        // signals of a connection carry the token it was given at registration
+        let id = match data {
+            Event::DeviceData | Event::Disconnect | Event::Ready | Event::Shadow(_) => {
+                let (index, serial) = split_connection_token(id);
+                if self.registration_of.get(&index) != Some(&serial) {
+                    error!("no-connection: the connection of token {} is already gone", id);
+                    return;
+                }
+                index
+            }
+            _ => id,
+        };
 
         match data {
             Event::Connect {
@@ -398,7 +419,14 @@ impl Router {
         };
 
         let ackslog = self.ackslog.get_mut(connection_id).unwrap();
-        ackslog.connack(connection_id, ack, Some(properties));
+        self.registrations = (self.registrations + 1) & (usize::MAX >> CONNECTION_INDEX_BITS);
+        if self.registrations == 0 {
+            self.registrations = 1;
+        }
+        self.registration_of
+            .insert(connection_id, self.registrations);
+        let token = connection_token(connection_id, self.registrations);
+        ackslog.connack(token, ack, Some(properties));
 
         pending_acks.into_iter().for_each(|pkid| {
             // NOTE: will it be better if we store the whole PubRel
@@ -468,6 +496,7 @@ impl Router {
         }
 
         // Remove connection from router
+        self.registration_of.remove(&id);
         let mut connection = self.connections.remove(id);
         let _incoming = self.ibufs.remove(id);
         let outgoing = self.obufs.remove(id);
@@ -1879,6 +1908,21 @@ fn validate_clientid(client_id: &str) -> Result<(), RouterError> {
 /// with another filter reads another log and needs a cursor and a turn of its own
 fn shared_group_key(share_name: &str, filter_path: &str) -> String {
     format!("{share_name}/{filter_path}")
+}
+
+/// Bits of a connection token that hold the connection id (a slab key); the bits above hold
+/// the serial number of the registration
+const CONNECTION_INDEX_BITS: u32 = usize::BITS / 2;
+
+fn connection_token(id: ConnectionId, serial: usize) -> ConnectionId {
+    id | (serial << CONNECTION_INDEX_BITS)
+}
+
+fn split_connection_token(token: ConnectionId) -> (ConnectionId, usize) {
+    (
+        token & ((1 << CONNECTION_INDEX_BITS) - 1),
+        token >> CONNECTION_INDEX_BITS,
+    )
 }
 
 fn extract_group(filter: &str) -> Option<(String, String)> {
